@@ -40,7 +40,19 @@ def shash(obj):
             f = z3.Function('HASH%d' % n, *([z3.RealSort()] * n + [z3.IntSort()]))
             _HASH[n] = f
         return core.SNum(f(*[core._real(core.toz3(x)) for x in obj]))
+    h = getattr(type(obj), '__hash__', None)
+    if h is not None and getattr(h, '__code__', None) is not None and 'artap' in (getattr(h, '__module__', '') or ''):
+        # hash(point) inside the library: builtins.hash would insist on an int; call the real method, which hashes
+        # the tuple of proxies through this shim
+        return h(obj)
     return builtins.hash(obj)
+
+
+def _collision(a, b, i=0):
+    """Model-selection hint (never part of the verdict): CPython hashes -1.0 and -2.0 alike (hash(-1) is reserved), so a
+    comparison that trusts hashes is wrong exactly there; the uninterpreted HASH only says 'some collision may exist',
+    and the replay needs a real one."""
+    return And(a[i] == -1, b[i] == -2, *[x == y for j, (x, y) in enumerate(zip(a, b)) if j != i])
 
 
 def _install():
@@ -65,13 +77,14 @@ def equality(args):
         r = (A == B)
         r2 = (B == A)
         ctx.output('eq', r)
-        ctx.check('eq-iff-all-coordinates-close', Not(Iff(r, _close(a, b))))
+        ctx.check('eq-iff-all-coordinates-close', Not(Iff(r, _close(a, b))), witness=_collision(a, b, n - 1))
         ctx.check('eq-symmetric', Not(Iff(r, r2)))
         ctx.check('eq-reflexive', Not(A == I.Individual(list(a))))
         for i in range(n):
             # differing in coordinate i alone (by more than the tolerance) makes them unequal
             others = And(*[a[j] == b[j] for j in range(n) if j != i])
-            ctx.check('differs-in-coordinate-%d' % i, And(others, Or(a[i] - b[i] >= TOL, b[i] - a[i] >= TOL), r))
+            ctx.check('differs-in-coordinate-%d' % i, And(others, Or(a[i] - b[i] >= TOL, b[i] - a[i] >= TOL), r),
+                      witness=_collision(a, b, i))
         ha, hb = A.__hash__(), B.__hash__()
         ctx.check('identical-vectors-identical-hash', And(And(*[x == y for x, y in zip(a, b)]), ha != hb))
         ctx.check('hash-is-int-like', not isinstance(ha, (int, core.SNum)))
@@ -107,11 +120,11 @@ def membership(args):
         eqs = [_close(x.vector, m.vector) for m in lst]
         res = x in lst
         ctx.output('in', res)
-        ctx.check('in-iff-some-member-equal', Not(Iff(res, Or(*eqs))))
+        ctx.check('in-iff-some-member-equal', Not(Iff(res, Or(*eqs))), witness=_collision(x.vector, lst[-1].vector, n - 1))
         any_eq = [any(child is None for child in ()) ]  # placeholder keeps structure simple
         # the duplicate test used by GeneticAlgorithm.generate
         dup = any(x == o for o in lst)
-        ctx.check('generate-duplicate-test', Not(Iff(dup, Or(*eqs))))
+        ctx.check('generate-duplicate-test', Not(Iff(dup, Or(*eqs))), witness=_collision(x.vector, lst[-1].vector, n - 1))
         work = list(lst)
         try:
             work.remove(x)
